@@ -29,5 +29,6 @@ size_t strlcpy(char *dst, const char *src, size_t size) {
 
 	*dst = '\0';
 
-	return s - src;
+	/* the result is strlen(src) even when the copy was truncated */
+	return (s - src) + strlen(s);
 }
